@@ -22,12 +22,20 @@ import (
 )
 
 type c14Backend struct {
-	calls int64
+	calls  int64
+	failed int64
 }
 
+// The backend answers with an error (directory unavailable) for every fifth user name: a lookup that fails is still a
+// lookup, and the limiter's bound is on lookups.
 func (b *c14Backend) fn() verifPWFunc {
 	return func(u string, p []byte) (bool, error) {
 		atomic.AddInt64(&b.calls, 1)
+		var n int
+		if _, err := fmt.Sscanf(u, "u%d", &n); err == nil && n%5 == 3 {
+			atomic.AddInt64(&b.failed, 1)
+			return false, fmt.Errorf("directory unavailable")
+		}
 		return string(p) == "pw-"+u, nil
 	}
 }
@@ -167,6 +175,7 @@ func c14PasswordLimiter(t *testing.T, rep *verifReport, cfgBurst, cfgRate int, e
 	rep.Count("pw_attempts", int(attempts))
 	rep.Count("pw_backend_calls", int(total))
 	rep.Count("pw_429", int(n429))
+	rep.Count("pw_backend_errors", int(atomic.LoadInt64(&be.failed)))
 	if float64(total) > bound {
 		rep.Violate("C14/password/bound-exceeded/"+label, fmt.Sprintf("%d backend calls in %.2fs exceed burst %d + rate %d/s", total, elapsed, effBurst, effRate), sum)
 	}
@@ -179,7 +188,7 @@ func c14PasswordLimiter(t *testing.T, rep *verifReport, cfgBurst, cfgRate int, e
 }
 
 func TestVerifC14(t *testing.T) {
-	rep := newVerifReport("C14", "password limiter: three configurations (floors, below-floor values raised to 10 and 1/s, larger) x sequential bursts through every registered route as basic-auth entry point + login form/basic, then 64-way concurrent attempts; conservation and burst+rate bound with harness-bracketed time over a counting backend. TOTP limiter: several users in parallel, wrong guess then correct code inside / outside the 2-second window, a second guess sent while the first is held inside its evaluation (at its profile save, via the interposing SQL driver), 5 and 10 evaluated failures with lock-out observation (limiter state aged instead of waiting an hour); class = (limiter, configuration/entry point or step, outcome)")
+	rep := newVerifReport("C14", "password limiter: three configurations (floors, below-floor values raised to 10 and 1/s, larger) x sequential bursts through every registered route as basic-auth entry point + login form/basic, then 64-way concurrent attempts; conservation and burst+rate bound with harness-bracketed time over a counting backend that fails (directory error) for a fifth of the user names. TOTP limiter: several users in parallel, wrong guess then correct code inside / outside the 2-second window, a second guess sent while the first is held inside its evaluation (at its profile save, via the interposing SQL driver), 5 and 10 evaluated failures with lock-out observation (limiter state aged instead of waiting an hour); class = (limiter, configuration/entry point or step, outcome)")
 	defer rep.Finish()
 	var wg sync.WaitGroup
 	wg.Add(1)
@@ -193,9 +202,11 @@ func TestVerifC14(t *testing.T) {
 	wg.Wait()
 	rep.Floor("pw_429", 100)
 	rep.Floor("pw_backend_calls", 30)
+	rep.Floor("pw_backend_errors", 5)
 	rep.Floor("totp_spacing_checked", 3)
 	rep.Floor("totp_lockout_checked", 1)
 	rep.Floor("totp_overlap_checked", 2)
+	rep.Floor("totp_relogin_checked", 1)
 }
 
 func c14TOTP(t *testing.T, rep *verifReport) {
@@ -279,6 +290,50 @@ func c14TOTP(t *testing.T, rep *verifReport) {
 			}
 		}(i)
 	}
+	// the spacing and the failure count belong to the user, not to the session: logging out and in again between a wrong
+	// guess and the next one changes nothing
+	wg.Add(1)
+	go func() {
+		defer wg.Done()
+		u := mk("relog")
+		if u == nil {
+			return
+		}
+		relogin := func() {
+			env.Do(verifReq{Method: "GET", Path: "/api/v0/logout", Cookies: verifCk(u.ck)}.Build())
+			if ck, _ := verifLogin(env, u.name, "pw-"+u.name); ck != "" {
+				u.ck = ck
+			}
+		}
+		time.Sleep(2100 * time.Millisecond)
+		_, w0, _, _ := try(u, wrong(u))
+		relogin()
+		h, _, g1, code := try(u, verifTOTPCode(u.secret, time.Now()))
+		within := g1.Sub(w0) < 2*time.Second
+		rep.Eval(fmt.Sprintf("totp|spacing-across-relogin|inside-window=%v|honoured=%v", within, h))
+		if within {
+			rep.Count("totp_relogin_checked", 1)
+			if h {
+				rep.Violate("C14/totp/spacing-reset-by-relogin", "a correct code sent less than 2 s after a wrong guess was honoured because the user logged out and in again in between",
+					map[string]interface{}{"user": u.name, "gap_ms": g1.Sub(w0).Milliseconds(), "status": code})
+			}
+		}
+		// five evaluated failures, each followed by logout + login: the lock-out must still arm
+		for i := 0; i < 5; i++ {
+			env.ShiftTOTPLimiter(u.name, 2100*time.Millisecond)
+			try(u, wrong(u))
+			relogin()
+		}
+		_, fc, known := env.TOTPLimiter(u.name)
+		env.ShiftTOTPLimiter(u.name, 2100*time.Millisecond)
+		h5, _, _, code5 := try(u, verifTOTPCode(u.secret, time.Now()))
+		rep.Eval(fmt.Sprintf("totp|lockout-across-relogin|honoured=%v", h5))
+		rep.Count("totp_relogin_checked", 1)
+		if h5 {
+			rep.Violate("C14/totp/lockout-reset-by-relogin", "after 5 failed guesses, each followed by logout and login, the correct code was honoured: the failure count does not survive a re-login",
+				map[string]interface{}{"user": u.name, "failures_recorded": fc, "limiter_entry_known": known, "status": code5})
+		}
+	}()
 	// lock-out: 5 evaluated failures, then the correct code
 	wg.Add(1)
 	go func() {
